@@ -39,7 +39,9 @@ vars == <<cfg, wire, buf, eof, r>>
           decompress: decode Content-Encoding: gzip bodies,
           gz        : the opaque gzip codec: sequence of [enc |-> bytes, dec |-> bytes] (complete members),
           head      : client mode: the request was HEAD,
-          respond   : "sync" (the application answers inside finish) | "async" (Respond is a separate step),
+          respond   : "sync" (the application answers inside finish) | "async" (Respond is a separate step)
+                      | "early" (it answers from headers_received) | "earlydata" (from its first data_received,
+                        else inside finish),
           btimeout  : a body timeout is configured (BodyTimeout enabled),
           shut      : the server may shut the connection down (Shutdown enabled)] *)
 
@@ -71,6 +73,11 @@ RejectClose(s, cause) == Refuse(s, cause, 0)
 Abort(s) == [s EXCEPT !.closed = TRUE, !.ph = "closed", !.blk = TRUE, !.open = FALSE,
                       !.ev = IF s.open THEN Append(@, EvC) ELSE @]
 Block(s) == [s EXCEPT !.blk = TRUE]
+(* the application finished its response before the request was read completely: the rest of the request
+   is not delivered, the connection is closed after the response, and the message delegate - which will not
+   get finish() - is told that the connection closed (C05: exactly one of the two) *)
+EarlyEnd(s) == [s EXCEPT !.out = Append(@, 200), !.closed = TRUE, !.ph = "closed", !.blk = TRUE, !.open = FALSE,
+                         !.ev = Append(@, EvC)]
 
 (* the message is complete *)
 AfterFinish(s, c) ==
@@ -138,6 +145,10 @@ NormCL(hs) ==
              keep == SelectSeq([i \in 1..Len(hs) |-> i], LAMBDA i : hs[i][1] # NameCL \/ i = first) IN
          [j \in 1..Len(keep) |-> IF keep[j] = first THEN <<NameCL, v>> ELSE hs[keep[j]]]
 
+CLMembersEqual(hs) == LET p == SplitOn(Combined(hs, NameCL), Comma)
+                          q == [i \in 1..Len(p) |-> IF i = 1 THEN p[i] ELSE LStrip(p[i], OWS)] IN
+                      Has(hs, NameCL) /\ \A i \in 1..Len(q) : q[i] = q[1]
+
 (* Content-Encoding: gzip is decoded when configured; the field is then renamed *)
 IsGz(hs, c) == c.decompress /\ ToLower(Combined(hs, NameCE)) = Gzip
 GzHeaders(hs) == Append(WithoutName(hs, NameCE), <<NameXC, Combined(hs, NameCE)>>)
@@ -169,6 +180,10 @@ ServerHead(s, c, block, e) ==
              fm == Framing(hs, c, 0, FALSE) IN
          IF ~Has(hs, NameHost) /\ rl.version[8] = 49 THEN Reject400(s, "host", c)
          ELSE IF Has(hs, NameHost) /\ ~HostOK(host) THEN Reject400(s, "host", c)
+         ELSE IF c.respond = "early"
+         THEN (* answered from headers_received, whatever the framing says (it is examined afterwards) *)
+              EarlyEnd([Emit(s, EvH(sl, IF CLMembersEqual(hs) THEN NormCL(hs) ELSE hs, <<"early">>, FALSE, FALSE))
+                           EXCEPT !.pos = e, !.open = TRUE])
          ELSE IF ~fm.ok THEN Reject400([Emit(s, EvH(sl, hs, <<"bad">>, TRUE, FALSE)) EXCEPT !.open = TRUE], fm.cause, c)
          ELSE Begin(s, c, sl, NormCL(hs), fm.fr, e, 0)
 
@@ -212,7 +227,8 @@ DataStep(s, c, b, e, next) ==
     IF avail = 0 THEN (IF e THEN Truncated(s, c) ELSE Block(s))
     ELSE LET n == IF avail < s.owed THEN avail ELSE s.owed
              s1 == Take(s, b, n) IN
-         IF s1.owed > 0 THEN s1
+         IF c.mode = "server" /\ c.respond = "earlydata" /\ ~s.gz THEN EarlyEnd(s1)     \* answered from this data_received
+         ELSE IF s1.owed > 0 THEN s1
          ELSE IF next = "end" THEN EndBody(s1, c) ELSE [s1 EXCEPT !.ph = next]
 
 ChunkSizeStep(s, c, b, e) ==
